@@ -294,9 +294,15 @@ class Interp:
         self.func = func
 
     # -------------------------------------------------------------- entry points
-    def run(self, fnode, init=None):
+    def run(self, fnode, init=None, loop_body=False):
+        """loop_body=True: fnode.body is the body of a loop analysed on its own - `continue` ends the iteration like falling off
+        the end does (its states are added to outs.fall); `break` states stay in outs.brk"""
         states = {self.dom.initial()} if init is None else set(init)
         outs = self.block(fnode.body, states, Ctx(self.func))
+        if loop_body:
+            outs.fall |= outs.cont
+            outs.cont = set()
+            return outs
         if outs.brk or outs.cont:
             raise AnalysisError("break/continue escaping function %s" % getattr(fnode, "name", "?"))
         return outs
